@@ -225,6 +225,6 @@ package rules
 //@   props C08 C03
 //@   ensures old(m.slashHandling) == config2.EncodedSlashesOff && hasEncodedSlash(old(request.URL.RawPath)) ==> ret0 != nil && tm.n == old(tm.n)
 //@   ensures ret0 == nil ==> tm.n == old(tm.n) + 1 && tm.ret0[old(tm.n)]
-//@   ensures tm.n == old(tm.n) + 1 && old(m.slashHandling) == config2.EncodedSlashesOn && len(old(request.URL.RawPath)) != 0 ==> exists i int :: 0 <= i && i < len(keys) && keys[i] == old(m.name) && tm.arg1[old(tm.n)] == pathUnescape(values[i])
-//@   ensures tm.n == old(tm.n) + 1 && old(m.slashHandling) == config2.EncodedSlashesOnNoDecode && len(old(request.URL.RawPath)) != 0 ==> exists i int :: 0 <= i && i < len(keys) && keys[i] == old(m.name) && tm.arg1[old(tm.n)] == decodeKeepSlashes(values[i])
-//@   ensures tm.n == old(tm.n) + 1 && old(m.slashHandling) == config2.EncodedSlashesOff && len(old(request.URL.RawPath)) != 0 ==> exists i int :: 0 <= i && i < len(keys) && keys[i] == old(m.name) && tm.arg1[old(tm.n)] == pathUnescape(values[i])
+//@   ensures tm.n == old(tm.n) + 1 && old(m.slashHandling) == config2.EncodedSlashesOn && len(old(request.URL.RawPath)) != 0 ==> exists i int :: 0 <= i && i < len(keys) && old(keys[i]) == old(m.name) && tm.arg1[old(tm.n)] == pathUnescape(old(values[i]))
+//@   ensures tm.n == old(tm.n) + 1 && old(m.slashHandling) == config2.EncodedSlashesOnNoDecode && len(old(request.URL.RawPath)) != 0 ==> exists i int :: 0 <= i && i < len(keys) && old(keys[i]) == old(m.name) && tm.arg1[old(tm.n)] == decodeKeepSlashes(old(values[i]))
+//@   ensures tm.n == old(tm.n) + 1 && old(m.slashHandling) == config2.EncodedSlashesOff && len(old(request.URL.RawPath)) != 0 ==> exists i int :: 0 <= i && i < len(keys) && old(keys[i]) == old(m.name) && tm.arg1[old(tm.n)] == pathUnescape(old(values[i]))
